@@ -592,8 +592,10 @@ XalanTransformer::compileStylesheet(
             const XSLTInputSource&              theStylesheetSource,
             const XalanCompiledStylesheet*&     theCompiledStylesheet)
 {
-    // Clear the error message.
-    m_errorMessage.resize(1, '\0');
+    // Clear the error message.  (resize(1, '\0') would keep the first
+    // character of a previous message and drop its terminator.)
+    m_errorMessage.clear();
+    m_errorMessage.push_back('\0');
 
     // Store error messages from problem listener.
     XalanDOMString  theErrorMessage(m_memoryManager);
@@ -1370,8 +1372,10 @@ XalanTransformer::doTransform(
 {
     int     theResult = 0;
 
-    // Clear the error message.
-    m_errorMessage.resize(1, '\0');
+    // Clear the error message.  (resize(1, '\0') would keep the first
+    // character of a previous message and drop its terminator.)
+    m_errorMessage.clear();
+    m_errorMessage.push_back('\0');
 
     // Store error messages from problem listener.
     XalanDOMString  theErrorMessage(m_memoryManager);
